@@ -394,7 +394,11 @@ impl HandshakeState {
                         ptr = &ptr[pub_len..];
                         temp
                     };
-                    self.symmetricstate.decrypt_and_mix_hash(data, &mut self.rs[..pub_len])?;
+                    // Decrypt into a scratch buffer: a static key that fails authentication must never
+                    // reach `rs`, which `get_remote_static()` may already be reporting.
+                    let mut rs = [0_u8; MAXDHLEN];
+                    self.symmetricstate.decrypt_and_mix_hash(data, &mut rs[..pub_len])?;
+                    self.rs[..pub_len].copy_from_slice(&rs[..pub_len]);
                     self.rs.enable();
                 },
                 Token::Psk(n) => match self.psks[usize::from(n)] {
